@@ -200,6 +200,9 @@ def replay(w):
         if 'expect_cycle' in w:
             from . import witness_order
             return not witness_order.verdict_ok(w['expect_cycle'], r)
+        if w.get('expect_scope'):
+            from . import witness_scope
+            return not witness_scope.replay_ok(w, r)
         if w.get('expect_modules'):
             from . import witness_modules
             return not witness_modules.replay_ok(w, r)
